@@ -205,7 +205,17 @@ func (p *Prog) BlockingOps(fn *ssa.Function) []*BlockOp {
 					out = append(out, &BlockOp{Fn: fn, In: in, Kind: "unknown", Callee: name, Dyn: true})
 					continue
 				}
-				out = append(out, &BlockOp{Fn: fn, In: in, Kind: "dyncall", Callee: p.Sym(cc.Value).String(), Dyn: true})
+				// the function value may have reached fn as an argument: of a call (process(item, handle))
+				// or of the go statement that starts fn (go handler(inner, dsc.opts.Handle))
+				cs := p.Sym(cc.Value)
+				if cs.Op == "param" {
+					if up := p.upParam(cs, 0); up.String() != cs.String() {
+						cs = up
+					} else if a, ok := goEntryArg(p, fn, cc.Value); ok {
+						cs = p.Sym(a)
+					}
+				}
+				out = append(out, &BlockOp{Fn: fn, In: in, Kind: "dyncall", Callee: cs.String(), Dyn: true})
 			}
 		}
 	}
